@@ -28,6 +28,9 @@ type CountingAllocator struct {
 	Base     local.BlockAllocator
 	News     atomic.Int64
 	Releases atomic.Int64
+	// OnNew, when set, runs once at the start of the next NewBlock call: something that happens concurrently
+	// with a reservation that holds the store lock (a reader detecting corruption does not need the lock).
+	OnNew func()
 }
 
 type countingBlock struct {
@@ -41,6 +44,10 @@ func (b countingBlock) Release() {
 }
 
 func (a *CountingAllocator) NewBlock() (local.Block, *pb.BlockLocation, error) {
+	if h := a.OnNew; h != nil {
+		a.OnNew = nil
+		h()
+	}
 	b, l, err := a.Base.NewBlock()
 	if err != nil {
 		return nil, nil, err
@@ -213,6 +220,34 @@ func (s *Sut) Exec(line string) string {
 		}
 		t.abs, t.off = int64(loc.BlockIndex)+s.Released(), loc.OffsetBytes
 		return fmt.Sprintf("ok %d %d %d", n, loc.BlockIndex, loc.OffsetBytes)
+	case "putb": // putb <size> <ticket>: a reservation during which a reader of <ticket> detects corruption
+		n, _ := strconv.Atoi(w[2])
+		if n >= len(s.tickets) || s.Dev == nil {
+			return "bad-op"
+		}
+		t := s.tickets[n]
+		rel := t.abs - s.Released()
+		getter, _ := s.LBM.Get(local.Location{BlockIndex: int(rel), OffsetBytes: t.off, SizeBytes: int64(len(t.data))})
+		b := getter(t.dig)
+		readResult := ""
+		fire := func() {
+			s.Dev.CorruptReads = 1
+			_, err := b.ToByteSlice(len(t.data) + 1)
+			s.Dev.CorruptReads = 0
+			if err == nil {
+				readResult = " read-succeeded"
+			} else if c := code(err); c != "internal" {
+				readResult = " read-failed-" + c
+			}
+		}
+		s.Alloc.OnNew = fire
+		r := s.Exec("put " + w[1])
+		if s.Alloc.OnNew != nil {
+			// the reservation allocated no block: the detection simply comes right after it
+			s.Alloc.OnNew = nil
+			fire()
+		}
+		return r + readResult
 	case "fin":
 		n, _ := strconv.Atoi(w[1])
 		if n >= len(s.tickets) {
@@ -407,6 +442,29 @@ func RunCase(run *hx.Run, model *hx.Model, name string, script []string) Result 
 			}
 			afterCorruption = false
 			checkState()
+		case "putb": // putb <size> <ticket>
+			if len(w) < 3 {
+				continue
+			}
+			tn, _ := strconv.Atoi(w[2])
+			if tn >= s.Tickets() || s.Dev == nil || s.TicketSize(tn) == 0 {
+				continue
+			}
+			abs := s.TicketAbs(tn)
+			rel := abs - s.Released()
+			if abs < 0 || rel < 0 || int(rel) >= s.Total() || !s.Resolvable()[rel] {
+				continue
+			}
+			r := emit(line)
+			if strings.Contains(r, "read-") {
+				oracle("C08", "a read of corrupted data did not fail with INTERNAL", line+" -> "+r)
+			}
+			if abs > quarantined {
+				quarantined = abs
+			}
+			corruptEpoch++
+			afterCorruption = true
+			checkState()
 		case "fin":
 			if arg >= s.Tickets() {
 				continue
@@ -535,7 +593,9 @@ func GenScript(r *hx.Rand, nops int, corruption int) []string {
 		case x < 75:
 			script = append(script, fmt.Sprintf("touch %d", r.Intn(nobj)))
 		case x < 75+corruption:
-			switch r.Intn(3) {
+			switch r.Intn(4) {
+			case 3:
+				script = append(script, fmt.Sprintf("putb %d %d", sizes[r.Intn(len(sizes))], r.Intn(i+1)))
 			case 0:
 				script = append(script, fmt.Sprintf("corrupt %d", r.Intn(i+1)))
 			case 1:
